@@ -128,13 +128,42 @@ def gen_dict(r, depth, nulls=False, max_keys=4):
     return d
 
 
+def _denull(v):
+    if isinstance(v, dict):
+        return {k: _denull(x) for k, x in v.items()}
+    if isinstance(v, list):
+        return [_denull(x) for x in v]
+    return "n" if v is None else v
+
+
+def denull_under_la(v):
+    """no explicit null *below* a last-applied-directed key: there the code compares the last-applied
+    value with itself (aliased), and its `last_applied_value[key] = None` makes a missing key read as
+    null — outside both properties (C04: no explicit nulls; C05: those keys are excluded), not modelled"""
+    if isinstance(v, list):
+        return [denull_under_la(x) for x in v]
+    if not isinstance(v, dict):
+        return v
+    la = v.get(LAST_APPLIED)
+    names = set()
+    if isinstance(la, (list, str, dict)):
+        names = {x for x in la if isinstance(x, str)}
+    out = {}
+    for k, x in v.items():
+        if k in names and isinstance(x, (dict, list)):
+            out[k] = _denull(x)
+        else:
+            out[k] = denull_under_la(x)
+    return out
+
+
 def gen_target(r, nulls=False, depth=3):
     t = gen_dict(r, depth, nulls)
     if r.random() < 0.5:
         md = t.setdefault("metadata", {})
         if isinstance(md, dict) and r.random() < 0.5:
             md.setdefault("labels", {"app": r.choice(NAMES)})
-    return t
+    return denull_under_la(t)
 
 
 def malform(r, t):
@@ -195,7 +224,7 @@ def malform(r, t):
     else:
         d[k] = [{"name": "a"}]
         d[AS_MAP] = {k: [1, True, "name"]}                               # non-string field names
-    return t
+    return denull_under_la(t)
 
 
 # --------------------------------------------------------------------------- strip / domain
@@ -251,6 +280,8 @@ def wf(v) -> bool:
                     return False
                 keys = [member_key(m, maps[k]) for m in x]
                 if len(set(keys)) != len(keys) or any(q in DIRECTIVES or q == OWNER_REFS for q in keys):
+                    return False
+                if any(f in DIRECTIVES for f in maps[k]) or not all(is_scalar(m.get(f)) for m in x for f in maps[k]):
                     return False
             elif k in sets and isinstance(x, list) and not all(is_scalar(y) for y in x):
                 return False
@@ -548,10 +579,12 @@ DRIFT_KINDS = {
 }
 
 
-def drift(r, t, live, path=None, kind=None):
+def drift(r, t, live, path=None, kind=None, exclude=None):
     """apply one deviation at one target-specified path of `live` (a decorated copy).
     Returns (live', path, kind, deviation) or None when nothing applicable was found."""
     paths = spec_paths(t)
+    if exclude is not None:
+        paths = [pk for pk in paths if not exclude(pk[0])]
     if not paths:
         return None
     live = copy.deepcopy(live)
